@@ -109,6 +109,8 @@ def read_dir_delta(path):
         with open(full, "rb") as f:
             data = f.read()
         if ext is None:
+            if ("override", stem) in delta:
+                unspecified = True      # NAME and NAME.override both present: the spec names no winner
             delta[("override", stem)] = data
         else:
             try:
@@ -116,6 +118,8 @@ def read_dir_delta(path):
             except UnicodeDecodeError:
                 continue
             if e in BEHAVIOURS:
+                if (e, stem) in delta:
+                    unspecified = True
                 delta[(e, stem)] = data
             # unknown suffix: ignored
     return delta, unspecified
